@@ -308,7 +308,50 @@ def _diff(a, b):
     return ", ".join(sorted(out))[:400]
 
 
+PROBE_CREDS = ["absent", "wrong", "no-scheme"]
+
+
+def check_after(case):
+    """a history: authorised requests (some of which fail inside their handler) followed by requests without the
+    token on every route; each of those must be refused and change nothing"""
+    state, adapter = case["state"], case["adapter"]
+    world = World(state, adapter)
+    vs, results = [], []
+    try:
+        pre = []
+        for p in case["prelude"]:
+            status, err = do_request(world, p["rule"], p["method"], p["id"], "absent", p["body"], token_ok=True)
+            pre.append(status if err is None else "raised:" + type(err).__name__)
+        before = world.snapshot()
+        rts = routes(world.app)
+        for rule, method in rts:
+            if rule in PUBLIC or rule.startswith("/static"):
+                continue
+            for cred in case.get("probe_creds", PROBE_CREDS):
+                for body in (["valid"] if method in ("POST", "PUT") else ["none"]):
+                    status, err = do_request(world, rule, method, "live", cred, body)
+                    if status is not None and 200 <= status < 300:
+                        vs.append(Violation("served-without-token-after-auth:%s" % rule,
+                                            "after the authorised requests %r (answers %r), %s %s with credential shape %s answered %d"
+                                            % ([(p["method"], p["rule"], p["id"], p["body"]) for p in case["prelude"]], pre, method, rule, cred, status)))
+                    after = world.snapshot()
+                    if after != before:
+                        vs.append(Violation("state-changed-after-auth:%s" % rule,
+                                            "after the authorised requests %r (answers %r), %s %s with credential shape %s was answered %r and changed: %s"
+                                            % ([(p["method"], p["rule"], p["id"], p["body"]) for p in case["prelude"]], pre, method, rule, cred, status, _diff(before, after))))
+                        before = after
+                    results.append(status)
+    finally:
+        world.close()
+    seen = {}
+    for v in vs:
+        seen.setdefault(v.signature, v)
+    return {"prelude_answers": pre, "probes": len(results)}, list(seen.values())
+
+
 def check_case(case):
+    if "prelude" in case:
+        return check_after(case)
     results, vs = check_group([case])
     return {"status": results[0][1] if results else None}, vs
 
@@ -323,10 +366,50 @@ def _record(ctx, results):
 def plan(tier):
     specs = [{"kind": "enum", "part": i, "of": 14} for i in range(14)]
     specs += [{"kind": "random", "n": 60 if tier == "quick" else 1500} for _ in range(2)]
+    specs += [{"kind": "after-enum", "part": i, "of": 4} for i in range(4)]
+    specs += [{"kind": "after-random", "n": 40 if tier == "quick" else 1000} for _ in range(2)]
     return specs
 
 
+def _after_body(ctx):
+    def body(case):
+        info, vs = check_after(case)
+        failed = [a for a in info["prelude_answers"] if not (isinstance(a, int) and 200 <= a < 300)]
+        ctx.case({"state": case["state"], "adapter": case["adapter"], "prelude": case["prelude"], "prelude_answers": info["prelude_answers"],
+                  "probes": info["probes"]},
+                 nontrivial=bool(failed), labels=["after-auth", "prelude-failed" if failed else "prelude-ok"], key=case)
+        ctx.report(vs)
+    return body
+
+
 def run_shard(spec, ctx):
+    if spec["kind"] == "after-enum":
+        # every single authorised request (route x id kind x body shape) as the prelude
+        preludes = []
+        seen = set()
+        for c in combos():
+            if c["state"] != "live" or c["rule"] in PUBLIC:
+                continue
+            k = (c["adapter"], c["rule"], c["method"], c["id"], c["body"])
+            if k in seen:
+                continue
+            seen.add(k)
+            preludes.append({"state": "live", "adapter": c["adapter"], "prelude": [{"rule": c["rule"], "method": c["method"], "id": c["id"], "body": c["body"]}],
+                             "probe_creds": ["absent"]})
+        mine = [p for i, p in enumerate(preludes) if i % spec["of"] == spec["part"]]
+        ctx.enum(mine, _after_body(ctx))
+        ctx.exhaustive = True
+        return
+    if spec["kind"] == "after-random":
+        cs = combos()
+        rts = sorted(set((c["rule"], c["method"]) for c in cs if c["rule"] not in PUBLIC))
+        req = st.fixed_dictionaries({"rm": st.sampled_from(rts), "id": st.sampled_from(["live", "locked", "external", "garbage"]),
+                                     "body": st.sampled_from(["none", "valid", "malformed"])}).map(
+            lambda d: {"rule": d["rm"][0], "method": d["rm"][1], "id": d["id"], "body": d["body"]})
+        strat = st.fixed_dictionaries({"state": st.sampled_from(["live", "locked"]), "adapter": st.booleans(),
+                                       "prelude": st.lists(req, min_size=1, max_size=5)})
+        ctx.hyp(strat, _after_body(ctx), spec["n"])
+        return
     if spec["kind"] == "enum":
         cs = combos()
         groups = {}
